@@ -233,6 +233,9 @@ func deviationsFor(root *memfs.Node) []deviation {
 			files = append(files, p)
 		}
 	})
+	nodes := 0
+	memfs.Walk(root, func(string, *memfs.Node) { nodes++ })
+	small := nodes <= 3
 	var ds []deviation
 	for _, d := range dirs {
 		d := d
@@ -253,15 +256,19 @@ func deviationsFor(root *memfs.Node) []deviation {
 		ds = append(ds, deviation{"paths", func(o *opts) { o.Paths = []string{d}; o.NoSub = true }})
 		for _, f := range files {
 			f := f
-			// a directory followed by a file (inside it or anywhere else) and the reverse order
-			ds = append(ds, deviation{"paths", func(o *opts) { o.Paths = []string{d, f} }})
-			if !strings.HasPrefix(f, d+"/") {
+			inside := strings.HasPrefix(f, d+"/")
+			// a directory followed by a file inside it; for small trees also a file anywhere else,
+			// the reverse order, and two unrelated directories
+			if inside || small {
+				ds = append(ds, deviation{"paths", func(o *opts) { o.Paths = []string{d, f} }})
+			}
+			if !inside && small {
 				ds = append(ds, deviation{"paths", func(o *opts) { o.Paths = []string{f, d} }})
 			}
 		}
 		for _, d2 := range dirs {
 			d2 := d2
-			if d2 != d && !strings.HasPrefix(d2, d+"/") && !strings.HasPrefix(d, d2+"/") {
+			if small && d2 != d && !strings.HasPrefix(d2, d+"/") && !strings.HasPrefix(d, d2+"/") {
 				ds = append(ds, deviation{"paths", func(o *opts) { o.Paths = []string{d, d2} }})
 			}
 		}
